@@ -546,17 +546,11 @@ def collect1Core (src : Dataset) (out : List Var) : ProjItem → Except Exc (Lis
         match findVar out n with
         | none => .ok (out ++ [.struct n [mem]])       -- grids degenerate into structures
         | some (.struct _ ms) => .ok (out.map fun v => if v.name = n then .struct n (addMember ms mem) else v)
-        | some (.grid _ a ms) =>
-          -- the whole grid was collected before: the member is re-set in place (grid object kept)
+        | some (.grid _ _ _) =>
+          -- the whole grid was collected before: the member is already there and is left where it is (since the
+          -- repair: setting it again moved a map behind the others / made the first map the grid's array)
           match mem with
-          | .base b =>
-            if a.name = m then
-              -- the array is the first key: re-set, it goes to the end and the first map takes its place
-              match ms with
-              | [] => .ok out
-              | m0 :: rest => .ok (out.map fun v => if v.name = n then .grid n m0 (rest ++ [b]) else v)
-            else
-            .ok (out.map fun v => if v.name = n then .grid n a (setBase ms b) else v)
+          | .base _ => .ok out
           | .struct _ _ => .error .unspecified
         | some _ => .error .unspecified
   | .path [(n, _), (m, _), (k, _)] =>
